@@ -152,6 +152,8 @@ def run(ctx: common.Run):
     check_sampler_shapes(ctx, cirq)
     check_simulated_records(ctx, cirq)
     check_processor_sampler(ctx, cirq)
+    check_classical_store_ints(ctx, cirq)
+    check_async_batch_order(ctx, cirq)
 
 
 def check_views(ctx, cirq, result_mod, recs, shapes, rng):
@@ -362,6 +364,92 @@ def check_sampler(ctx, cirq):
                                 'theorem_or_correspondence': 'sampler entry points (T2) + C10 sweep order'})
 
 
+
+
+def check_classical_store_ints(ctx, cirq):
+    """the integer view of a record in the classical data store is the mixed-radix (big-endian) value of its digits, for every mixture
+    of qubits and qudits under one key (the Lean digits model is the reference), for measurement and channel records; conditions that
+    compare that integer fire accordingly"""
+    import sympy
+
+    rng = ctx.substream('store-ints')
+    reqs, meta = [], []
+    for it in range(60 if ctx.tier == 'quick' else 600):
+        k = rng.randint(1, 5)
+        dims = [rng.choice([2, 2, 3, 4, 5]) for _ in range(k)]
+        if it % 3 == 0:
+            dims[rng.randrange(k)] = 2   # at least one qubit among qudits
+        digits = [rng.randrange(d) for d in dims]
+        reqs.append({'p': 'C18', 'op': 'digits_to_int', 'digits': digits, 'bases': dims})
+        meta.append((dims, digits))
+    outs = ctx.driver.ask(reqs)
+    for (dims, digits), out in zip(meta, outs):
+        want = out.get('ok')
+        qids = [cirq.LineQid(j, d) for j, d in enumerate(dims)]
+        store = cirq.ClassicalDataDictionaryStore()
+        key = cirq.MeasurementKey('m')
+        store.record_measurement(key, digits, qids)
+        ctx.count('view', 'store.get_int')
+        ctx.case(['store-int', dims, digits], len(dims) >= 2 and any(digits))
+        got = store.get_int(key)
+        got_digits = list(store.get_digits(key))
+        if got != want or got_digits != digits:
+            ctx.report_witness('store:get_int', 'ClassicalDataDictionaryStore.get_int is not the mixed-radix value of the recorded digits',
+                               {'lines': [{'dims': dims, 'digits': digits}], 'impl_out': [got, got_digits], 'spec_out': [want, digits], 'theorem_or_correspondence': 'T2 digits vs CirqVerif.Digits'})
+            continue
+        # a condition comparing the integer: fires exactly when the value matches
+        for target in {want, (want + 1) % max(2, int(np.prod(dims)))}:
+            cond = cirq.SympyCondition(sympy.Eq(sympy.Symbol('m'), target))
+            ctx.count('view', 'store.condition')
+            if bool(cond.resolve(store)) != (target == want):
+                ctx.report_witness('store:condition', 'a condition on the integer value of a record does not fire according to the mixed-radix value of its digits',
+                                   {'lines': [{'dims': dims, 'digits': digits, 'target': target}], 'impl_out': [bool(cond.resolve(store))], 'spec_out': [target == want], 'theorem_or_correspondence': 'T2 digits vs CirqVerif.Digits'})
+
+
+def check_async_batch_order(ctx, cirq):
+    """run_batch / run_batch_async over a sampler whose sweeps really run concurrently and finish in any order: the i-th list of results
+    belongs to the i-th circuit"""
+    import duet
+
+    rng = ctx.substream('async-batch')
+    q = cirq.LineQubit(0)
+
+    class SlowSampler(cirq.Sampler):
+        def __init__(self, delays):
+            self.delays = delays
+            self.finished = []
+
+        async def run_sweep_async(self, program, params, repetitions=1):
+            tag = program.tags[0]
+            await duet.sleep(self.delays[tag])
+            self.finished.append(tag)
+            out = []
+            for j, r in enumerate(cirq.to_resolvers(params)):
+                out.append(cirq.ResultDict(params=r, records={'m': np.full((repetitions, 1, 1), (tag + j) % 2, dtype=np.uint8), f'k{tag}': np.zeros((repetitions, 1, 1), dtype=np.uint8)}))
+            return out
+
+        def run_sweep(self, program, params, repetitions=1):
+            return duet.run(self.run_sweep_async, program, params, repetitions)
+
+    for it in range(4 if ctx.tier == 'quick' else 30):
+        n = rng.randint(2, 5)
+        order = list(range(n))
+        rng.shuffle(order)
+        delays = {tag: 0.01 * (order.index(tag) + 1) for tag in range(n)}
+        circuits_ = [cirq.Circuit(cirq.measure(q, key='m'), tags=[tag]) for tag in range(n)]
+        sweeps = [cirq.Points('t', [0.0, 1.0][: 1 + tag % 2]) for tag in range(n)]
+        reps = [2 + tag for tag in range(n)]
+        for name in ('run_batch', 'run_batch_async'):
+            s_ = SlowSampler(delays)
+            got = s_.run_batch(circuits_, params_list=sweeps, repetitions=reps) if name == 'run_batch' else duet.run(s_.run_batch_async, circuits_, sweeps, reps)
+            ctx.count('view', 'async-' + name)
+            ctx.case(['async-batch', name, order], s_.finished != sorted(s_.finished))
+            owners = [[sorted(k for k in r.records if k != 'm') for r in rs] for rs in got]
+            want = [[[f'k{tag}']] * len(list(cirq.to_resolvers(sweeps[tag]))) for tag in range(n)]
+            shapes = [[r.records['m'].shape[0] for r in rs] for rs in got]
+            if owners != want or shapes != [[reps[tag]] * len(want[tag]) for tag in range(n)]:
+                ctx.report_witness(f'sampler:{name}:order', f'{name} over a sampler whose sweeps finish out of order: results are not listed per circuit in the order of the circuits',
+                                   {'lines': [{'finish_order': s_.finished, 'circuits': n}], 'impl_out': [owners, shapes], 'spec_out': [want], 'theorem_or_correspondence': 'sampler entry points (T2)'})
 
 
 def check_sampler_shapes(ctx, cirq):
